@@ -347,6 +347,18 @@ func (g *Gen) str(x d128.Decimal) { g.un("String", x) }
 func genC06(g *Gen) {
 	g.setMode(0)
 	g.encodingGrid(0.1, func(x d128.Decimal) { g.str(x) })
+	// every text is exact, so reading it back must not depend on DefaultRoundingMode: values whose positional text is long
+	// (the parser keeps 39 digits and drops the rest, zeros or not) and ordinary ones, under each of the six modes
+	{
+		vals := []d128.Decimal{mk(false, big.NewInt(1), 40), mk(true, big.NewInt(1), 40), mk(false, big.NewInt(123456789), 45), mk(true, big.NewInt(123456789), 45),
+			mk(false, big.NewInt(7), 6100), mk(false, g.fullCoef(), 20), mk(true, g.fullCoef(), 7), mk(false, pow10(34), 10), mk(false, big.NewInt(15), -1),
+			mk(true, big.NewInt(1), -40), mk(false, g.fullCoef(), -6176), mk(false, cMax, eMax)}
+		g.gridRun(len(vals)*6, 0.05, func(i int) {
+			g.setMode(i % 6)
+			g.str(vals[i/6])
+			g.setMode(0)
+		})
+	}
 	for !g.w.full() {
 		switch g.r.Intn(9) {
 		case 8: // both ends of the range, every coefficient shape; word-boundary coefficients
